@@ -787,14 +787,32 @@ fn gen_xlsx(rng: &mut Rng, s: &str, pfx: &str) -> XlsxCase {
     }
     decoy(rng, &mut items);
     // the table
-    let mut sst = vec![X::Start(
-        q(pfx, "sst"),
-        vec![
-            (if pfx.is_empty() { "xmlns".to_string() } else { format!("xmlns:{pfx}") }, xlsxw::NS_MAIN.to_string()),
-            ("count".into(), items.len().to_string()),
-            ("uniqueCount".into(), items.len().to_string()),
-        ],
-    )];
+    // count / uniqueCount are optional and advisory (ECMA-376 18.4.9): absent, exact, the number of *distinct*
+    // strings (smaller than the number of items: the forms of `s` repeat its text), smaller still, larger, garbage
+    let mut sst_attrs = vec![(if pfx.is_empty() { "xmlns".to_string() } else { format!("xmlns:{pfx}") }, xlsxw::NS_MAIN.to_string())];
+    {
+        let n = items.len();
+        let mut distinct: Vec<&String> = items.iter().map(|i| &i.1).collect();
+        distinct.sort();
+        distinct.dedup();
+        let pick = |rng: &mut Rng| -> Option<String> {
+            match rng.below(7) {
+                0 => None,
+                1 | 2 => Some(n.to_string()),
+                3 => Some(distinct.len().to_string()),
+                4 => Some(rng.below(n as u64 + 1).to_string()),
+                5 => Some((n + 1 + rng.below(1000) as usize).to_string()),
+                _ => Some(rng.pick(&["x", "-1", "", "1e3", " 2"]).to_string()),
+            }
+        };
+        if let Some(c) = pick(rng) {
+            sst_attrs.push(("count".into(), c));
+        }
+        if let Some(u) = pick(rng) {
+            sst_attrs.push(("uniqueCount".into(), u));
+        }
+    }
+    let mut sst = vec![X::Start(q(pfx, "sst"), sst_attrs)];
     let mut prev_empty = false;
     for (i, (evs, text, label)) in items.iter().enumerate() {
         ws(rng, &mut sst);
@@ -1217,6 +1235,12 @@ fn gen_bin_cells(rng: &mut Rng, s: &str, fmt: &str) -> (Vec<(u8, Vec<u16>, Vec<u
     shared(rng, &mut sst, &mut cells, &units, s, "item_again");
     cells.push(BinCell { kind: "st".into(), isst: 0, units: units.clone(), expect: s.to_string(), label: format!("{fmt}.inline") });
     cells.push(BinCell { kind: "fmla".into(), isst: 0, units: units.clone(), expect: s.to_string(), label: format!("{fmt}.formula_string") });
+    if fmt == "xls" {
+        // the first cell of a shared formula / array formula / data table: FORMULA, SHRFMLA | ARRAY | TABLE, STRING
+        for k in ["shrfmla", "array", "table"] {
+            cells.push(BinCell { kind: format!("fmla_{k}"), isst: 0, units: units.clone(), expect: s.to_string(), label: format!("{fmt}.formula_string_{k}") });
+        }
+    }
     (sst, cells)
 }
 
@@ -1347,6 +1371,44 @@ fn xls_bytes(c: &XlsCase) -> (Vec<u8>, (u64, u64)) {
     let mut s = xlsw::XlsSheet::new("S");
     for (i, cell) in c.cells.iter().enumerate() {
         let text = String::from_utf16_lossy(&cell.units);
+        if let Some(k) = cell.kind.strip_prefix("fmla_") {
+            // FORMULA (string result pending), the shared-formula / array / table definition, then STRING
+            let row = i as u16;
+            let fp = xlsw::formula_payload(row, 0, 0, xlsw::formula_value(&xlsw::Cached::Str(String::new())), &xlsw::rgce_int(1));
+            s.cells.push(xlsw::XlsCell::raw(xlsw::FORMULA, fp));
+            let mut rf = row.to_le_bytes().to_vec(); // Ref / RefU: rwFirst rwLast colFirst colLast
+            rf.extend_from_slice(&(row + 1).to_le_bytes());
+            rf.extend_from_slice(&[0, 1]);
+            let fm = |d: &mut Vec<u8>| {
+                let rg = xlsw::rgce_int(1);
+                d.extend_from_slice(&(rg.len() as u16).to_le_bytes());
+                d.extend_from_slice(&rg);
+            };
+            let (id, payload) = match k {
+                "shrfmla" => {
+                    let mut d = rf.clone();
+                    d.extend_from_slice(&[0, 2]); // reserved, cUse
+                    fm(&mut d);
+                    (0x04BCu16, d)
+                }
+                "array" => {
+                    let mut d = rf.clone();
+                    d.extend_from_slice(&0u16.to_le_bytes());
+                    d.extend_from_slice(&0u32.to_le_bytes());
+                    fm(&mut d);
+                    (0x0221, d)
+                }
+                _ => {
+                    let mut d = rf.clone();
+                    d.extend_from_slice(&0u16.to_le_bytes());
+                    d.extend_from_slice(&[0, 0, 0, 0, 0, 0, 0, 0]);
+                    (0x0236, d)
+                }
+            };
+            s.cells.push(xlsw::XlsCell::raw(id, payload));
+            s.cells.push(xlsw::XlsCell::raw(xlsw::STRING, xlsw::xl_unicode_string(&text, None, &mut rng)));
+            continue;
+        }
         let v = match cell.kind.as_str() {
             "isst" => xlsw::CellV::LabelSst(cell.isst),
             "st" => xlsw::CellV::Label(text, None),
@@ -1924,6 +1986,72 @@ fn corpus() -> Vec<Case> {
         }));
     }
     // D36 (xls): an empty LABEL / shared / formula string
+    // seeded C19-m5: a formula string result whose STRING record follows a SHRFMLA / ARRAY / TABLE record
+    v.push(Case::Xls(XlsCase {
+        split: false,
+        seed: 5,
+        sst: vec![],
+        cells: ["shrfmla", "array", "table"]
+            .iter()
+            .map(|k| BinCell { kind: format!("fmla_{k}"), isst: 0, units: "res<&> ult".encode_utf16().collect(), expect: "res<&> ult".into(), label: format!("xls.formula_string_{k}") })
+            .collect(),
+    }));
+    // seeded C19-m7: one BrtSSTItem record larger than 128 KiB / 256 KiB (rich runs and phonetic data after the
+    // text contribute nothing; the text must survive exactly), sizes around the reader's step size
+    {
+        let text = |n: usize| -> Vec<u16> { (0..n).map(|i| 0x41 + (i % 26) as u16 + if i % 7 == 0 { 0x100 } else { 0 }).collect() };
+        let rich = |total: usize, n: usize| -> Vec<u8> {
+            // payload = flags(1) + cch(4) + 2n + cRun(4) + 4*cRun (+ padding bytes inside the last run block)
+            let rest = total - (1 + 4 + 2 * n) - 4;
+            let runs = rest / 4;
+            let mut t = (runs as u32).to_le_bytes().to_vec();
+            for i in 0..runs {
+                t.extend_from_slice(&((i % n.max(1)) as u16).to_le_bytes());
+                t.extend_from_slice(&1u16.to_le_bytes());
+            }
+            t.extend(std::iter::repeat(0u8).take(rest % 4));
+            t
+        };
+        let mut big: Vec<(u8, Vec<u16>, Vec<u8>)> = vec![];
+        for total in [131071usize, 131072, 131073, 131076, 262143, 262144, 262145, 262150, 140009] {
+            let n = if total == 140009 { 30000 } else { 100 + total % 50 };
+            big.push((1, text(n), rich(total, n)));
+        }
+        // text and phonetic string both at the 32767-character limit
+        let mut ph = xlsbw::wide_units(&text(32767));
+        ph.extend_from_slice(&1u32.to_le_bytes());
+        ph.extend_from_slice(&[0, 0, 0, 0, 1, 0]);
+        big.push((2, text(32767), ph));
+        for (k, item) in big.into_iter().enumerate() {
+            let expect = String::from_utf16(&item.1).unwrap();
+            v.push(Case::Xlsb(XlsbCase {
+                sst: vec![(0, "before".encode_utf16().collect(), vec![]), item, (0, "after".encode_utf16().collect(), vec![])],
+                cells: vec![
+                    BinCell { kind: "isst".into(), isst: 0, units: vec![], expect: "before".into(), label: "xlsb.shared.item".into() },
+                    BinCell { kind: "isst".into(), isst: 1, units: vec![], expect, label: format!("xlsb.shared.big_record_{k}") },
+                    BinCell { kind: "isst".into(), isst: 2, units: vec![], expect: "after".into(), label: "xlsb.shared.item".into() },
+                ],
+            }));
+        }
+    }
+    // seeded C19-m8: more <si> items than uniqueCount says (it counts distinct strings and is advisory)
+    for uc in ["1", "2", "0", "7", "x"] {
+        let mut sst = sst_of("", vec![si("", t("", "same")), si("", rich("", "sa", "me")), si("", t("", "other")), si("", vec![])]);
+        if let X::Start(_, a) = &mut sst[0] {
+            a.push(("count".into(), "4".into()));
+            a.push(("uniqueCount".into(), uc.into()));
+        }
+        v.push(Case::Xlsx(XlsxCase {
+            pfx: String::new(),
+            sst,
+            cells: vec![
+                shared_cell("", 0, "same", "xlsx.shared.plain"),
+                shared_cell("", 1, "same", "xlsx.shared.rich.beyond_unique_count"),
+                shared_cell("", 2, "other", "xlsx.shared.plain.beyond_unique_count"),
+                shared_cell("", 3, "", "xlsx.shared_decoy.nochild.beyond_unique_count"),
+            ],
+        }));
+    }
     // seeded C19-m3: a shared string cut by CONTINUE records with the 8/16-bit packing switching at the cut
     for (k, s) in ["abcdΩΩΩΩ", "ΩΩΩΩabcd", "ab\u{3A9}cd\u{3A9}ef", "é😀x日本y"].iter().enumerate() {
         for seed in 0..4u64 {
@@ -1964,7 +2092,7 @@ fn main() {
          character literal / predefined entity / decimal / hex reference / inside CDATA, comments between chunks; \
          xml:space; white space between elements; ods literal spaces vs text:s (with/without text:c), 1-4 paragraphs, \
          nested text:span / text:a, annotation first, covered cell; xlsb BrtSSTItem (with rich/phonetic trailers) / \
-         BrtCellSt / BrtFmlaString; xls SST / LABEL / FORMULA+STRING (implementation vs oracle only, model = C12). Every \
+         BrtCellSt / BrtFmlaString; xls SST (also cut by CONTINUE records inside the strings with the 8/16-bit packing switching at the cut) / LABEL / FORMULA+STRING, the STRING record also after a SHRFMLA / ARRAY / TABLE record (implementation vs oracle only, model = C12); xlsx sst count / uniqueCount absent / exact / distinct-count / smaller / larger / garbage with every item referenced; fixed xlsb files with one BrtSSTItem record of 128 KiB and 256 KiB +- a few bytes (rich runs, phonetic data). Every \
          form is read by the real reader (worksheet_range), by the Lean model on the event list of exactly that fragment, \
          and compared with the string itself. CR is always written as a character reference (a literal CR is normalised \
          by XML), never inside CDATA. Outside the quantifier (observed and counted, compared with the model only): OOXML \
@@ -2034,7 +2162,7 @@ fn main() {
         }
         jobs.extend(corpus().into_iter().map(Job::Fixed));
         let quick = !args.thorough();
-        let n = args.count(3000, 300_000);
+        let n = args.count(3000, 250_000);
         let mut rng = Rng::new(args.seed);
         for i in 0..n {
             let s = gen_string(&mut rng, quick);
